@@ -76,7 +76,16 @@ var hostilePtrs = []string{"", "/", "//", "/arr", "/arr/0", "/arr/+0", "/arr/00"
 	"/n", "/n/x", "/m~n", "/m~0n", "/m~0n/x", "/m~n/x", "/a~1b", "/a~1b/x", "/~", "/~0", "/~01", "/~/x", "/~0/x", "/x", "/x/y", "/new", "/new/deep",
 	"x", "x/obj/a", "y/arr/0/x", "/alsoKnownAs", "/alsoKnownAs/0", "/publicKey", "/publicKey/0", "/service/0/id", "/obj/a/../b"}
 
+// a location and a place inside it, under names whose pointer spelling needs both escapes ("~01" is the
+// name "~1", not "/"): a guard that un-escapes in the wrong order loses its way in the document
+var ownChildPairs = [][2]string{{"/k~01/0", "/k~01/0/0"}, {"/k~01/0", "/k~01/00/0"}, {"/k~01/0", "/k~01/+0/-"}, {"/~01/0", "/~01/0/q2"}, {"/~01/0", "/~01/00/q/r"},
+	{"/k~01", "/k~01/0/0"}, {"/~01", "/~01/-"}, {"/a~1b/0", "/a~1b/00/x"}}
+
 func hostileOp(r *rand.Rand) interface{} {
+	if r.Intn(15) == 0 {
+		p := ownChildPairs[r.Intn(len(ownChildPairs))]
+		return M{"op": pick(r, []string{"copy", "move"}), "from": p[0], "path": p[1]}
+	}
 	kind := pick(r, []string{"add", "remove", "replace", "move", "copy", "test", "copy", "move", "Add", "", "noop"})
 	op := M{"op": kind, "path": pick(r, hostilePtrs)}
 	if kind == "move" || kind == "copy" || r.Intn(8) == 0 {
@@ -106,6 +115,8 @@ func genC19compose(r *rand.Rand, n int, emit func(string)) {
 			doc["~"] = M{"u": []interface{}{}}
 			doc["a/b"] = []interface{}{M{}}
 		}
+		doc["k~1"] = []interface{}{[]interface{}{1}}
+		doc["~1"] = []interface{}{M{"q": M{}}}
 		var ps []interface{}
 		if r.Intn(500) == 0 {
 			// a chain of copies between two lists: each appends one list to the other, the sizes
